@@ -1,0 +1,78 @@
+//go:build verif
+
+// Contracts for package tensor (the public constructors), read by /verif/qv (comment-only file).
+
+package tensor
+
+//@ define confOK(conf) := conf == nil || conf.Device == CPU
+//@ define confTrack(conf) := conf != nil && conf.GradTrack
+
+//@ func validateConfig
+//@   ensures[C09] iff(err == nil, confOK(conf))
+
+//@ func prepareConfig
+//@   ensures[C09] iff(err == nil, confOK(conf)) && imp(err == nil, c.Device == CPU && c.GradTrack == confTrack(conf))
+
+//@ func validateTensorDevice
+//@   ensures[C09] iff(err == nil, t != nil)
+
+//@ func validateTensorsDeviceUnity
+//@   ensures[C09] iff(err == nil, len(ts) >= 2 && forall(k, 0, len(ts), ts[k] != nil))
+//@   loop 0 invariant len(ts) >= 2 && forall(k, 0, _i0, ts[k] != nil) && (dev == 0 || dev == CPU)
+
+//@ func Full
+//@   public
+//@   returns fresh
+//@   ensures[C09] iff(err == nil, confOK(conf) && dimsOK(dims)) && imp(err != nil, t == nil)
+//@   ensures[C06,C18] imp(err == nil, t != nil && hasShape(t, dims) && forallJ(J, imp(inb(t, J), el(t, J) == value)) && leafCtx(t, confTrack(conf)))
+
+//@ func Zeros
+//@   public
+//@   returns fresh
+//@   ensures[C09] iff(err == nil, confOK(conf) && dimsOK(dims)) && imp(err != nil, t == nil)
+//@   ensures[C06] imp(err == nil, t != nil && hasShape(t, dims) && forallJ(J, imp(inb(t, J), el(t, J) == 0)) && leafCtx(t, confTrack(conf)))
+
+//@ func Ones
+//@   public
+//@   returns fresh
+//@   ensures[C09] iff(err == nil, confOK(conf) && dimsOK(dims)) && imp(err != nil, t == nil)
+//@   ensures[C06] imp(err == nil, t != nil && hasShape(t, dims) && forallJ(J, imp(inb(t, J), el(t, J) == 1)) && leafCtx(t, confTrack(conf)))
+
+//@ func Eye
+//@   public
+//@   returns fresh
+//@   ensures[C09] iff(err == nil, confOK(conf) && n > 0) && imp(err != nil, t == nil)
+//@   ensures[C06] imp(err == nil, t != nil && rank(t) == 2 && dim(t, 0) == n && dim(t, 1) == n && forallJ(J, imp(inb(t, J), el(t, J) == ite(J[0] == J[1], 1.0, 0.0))) && leafCtx(t, confTrack(conf)))
+
+//@ func RandU
+//@   public
+//@   returns fresh
+//@   ensures[C09,C18] iff(err == nil, confOK(conf) && l < u && dimsOK(dims)) && imp(err != nil, t == nil)
+//@   ensures[C18] imp(err == nil, t != nil && hasShape(t, dims) && forallJ(J, imp(inb(t, J), l <= el(t, J) && el(t, J) < u)) && leafCtx(t, confTrack(conf)))
+
+//@ func RandN
+//@   public
+//@   returns fresh
+//@   ensures[C09,C18] iff(err == nil, confOK(conf) && s > 0 && dimsOK(dims)) && imp(err != nil, t == nil)
+//@   ensures[C18] imp(err == nil, t != nil && hasShape(t, dims) && leafCtx(t, confTrack(conf)))
+
+// every tensor handed to the public API was produced by it (representation invariants of section 3.4)
+//@ define libTensors(ts) := forall(k, 0, len(ts), imp(ts[k] != nil, tinv(ts[k]) && preexisting(ts[k])))
+
+//@ func Concat
+//@   public
+//@   requires libTensors(ts)
+//@   returns fresh
+//@   ensures[C09,C06] iff(err == nil, len(ts) >= 2 && catDimsOK(ts, dim)) && imp(err != nil, o == nil)
+//@   ensures[C06] imp(err == nil, o != nil && rank(o) == rank(ts[0]) && dim(o, dim) == catoff(ts, dim, len(ts)) && forall(b, 0, rank(o), b == dim || dim(o, b) == dim(ts[0], b)))
+//@   ensures[C06] imp(err == nil, forall(a, 0, len(ts), forallJ(J, imp(inb(o, J) && catoff(ts, dim, a) <= J[dim] && J[dim] < catoff(ts, dim, a+1), el(o, J) == el(ts[a], upd(J, dim, J[dim] - catoff(ts, dim, a)))))))
+
+//@ func BackPropagate
+//@   public
+//@   requires imp(t != nil, tinv(t)) && graphInv()
+//@   modifies GradContext.bpdirty, GradContext.gradient
+//@   ensures[C09] iff(err == nil || t != nil, t != nil)
+//@   ensures[C08] imp(t == nil || !old(t.gctx.tracked), forallG(g, g.bpdirty == old(g.bpdirty) && g.gradient == old(g.gradient)))
+//@   ensures[C08] forallG(g, imp(old(g.bpdirty), g.bpdirty) && imp(old(g.gradient) != nil, g.gradient != nil))
+//@   ensures[C08] forallG(g, imp(!g.tracked, g.bpdirty == old(g.bpdirty) && g.gradient == old(g.gradient)))
+//@   ensures[C01,C08] imp(t != nil && old(t.gctx.tracked) && err == nil, t.gctx.bpdirty && t.gctx.gradient != nil)
